@@ -8,7 +8,7 @@ ap.add_argument("P"); ap.add_argument("K")
 for a in ("title", "site", "breaks", "needs", "status", "before", "rule", "key", "message", "limits", "tests"):
     ap.add_argument("--" + a, default="")
 a = ap.parse_args()
-src = f"/tmp/seed_out/{a.P}"; dst = f"/verif/seeded/{a.P}_{a.K}"
+src = os.environ.get("SEED_OUT", "/tmp/seed_out") + f"/{a.P}"; dst = f"/verif/seeded/{a.P}_{a.K}"
 os.makedirs(dst, exist_ok=True)
 shutil.copy(f"{src}/patch{a.K}.diff", f"{dst}/patch.diff")
 shutil.copy(f"{src}/demo{a.K}.py", f"{dst}/demo.py")
